@@ -1196,7 +1196,7 @@ class Ref:
 
 
 # ==================================================================== equality
-def deep_eq(a, b, *, key_order=True) -> bool:
+def deep_eq(a, b, *, key_order=True, ordered_dicts=False) -> bool:
     """== plus identical concrete classes at every node, sign of zero for floats,
     .pattern for regexes; NaN equals NaN.  Sets compare as sets."""
     if type(a) is not type(b):
@@ -1206,21 +1206,22 @@ def deep_eq(a, b, *, key_order=True) -> bool:
             return math.isnan(a) and math.isnan(b)
         return a == b and math.copysign(1, a) == math.copysign(1, b)
     if isinstance(a, (list, tuple, collections.deque)):
-        return len(a) == len(b) and all(deep_eq(x, y, key_order=key_order) for x, y in zip(a, b))
+        return len(a) == len(b) and all(deep_eq(x, y, key_order=key_order, ordered_dicts=ordered_dicts) for x, y in zip(a, b))
     if isinstance(a, collections.ChainMap):
-        return deep_eq(a.maps, b.maps, key_order=key_order)
+        return deep_eq(a.maps, b.maps, key_order=key_order, ordered_dicts=ordered_dicts)
     if isinstance(a, (dict, types.MappingProxyType)):
         if len(a) != len(b):
             return False
-        if key_order:
+        if key_order or (ordered_dicts and isinstance(a, collections.OrderedDict)):
+            # (an OrderedDict compares equal to another one only in the same order)
             for (k1, v1), (k2, v2) in zip(a.items(), b.items()):
-                if not deep_eq(k1, k2, key_order=key_order) or not deep_eq(v1, v2, key_order=key_order):
+                if not deep_eq(k1, k2, key_order=key_order, ordered_dicts=ordered_dicts) or not deep_eq(v1, v2, key_order=key_order, ordered_dicts=ordered_dicts):
                     return False
             return True
         for k1, v1 in a.items():
             if k1 not in b:
                 return False
-            if not deep_eq(v1, b[k1], key_order=key_order):
+            if not deep_eq(v1, b[k1], key_order=key_order, ordered_dicts=ordered_dicts):
                 return False
             # key type identity
             for k2 in b:
@@ -1232,7 +1233,7 @@ def deep_eq(a, b, *, key_order=True) -> bool:
     if isinstance(a, (set, frozenset)):
         return sorted(map(_tkey, a)) == sorted(map(_tkey, b))
     if dataclasses.is_dataclass(a) and not isinstance(a, type):
-        return all(deep_eq(getattr(a, f.name, _MISSING), getattr(b, f.name, _MISSING), key_order=key_order)
+        return all(deep_eq(getattr(a, f.name, _MISSING), getattr(b, f.name, _MISSING), key_order=key_order, ordered_dicts=ordered_dicts)
                    for f in dataclasses.fields(a))
     if isinstance(a, re.Pattern):
         return a.pattern == b.pattern
